@@ -237,6 +237,23 @@ PROPS["C19"] = {
     ],
 }
 
+C09_MONITOR = [
+    {"file": "multiepoch.go", "rules": [{"old": "sync.RWMutex", "new": "vfRWMutex", "within": "UnimplementedOldFaithfulServer"}], "append": "var _ sync.Mutex"},
+    {"file": "zz_vf_rwmutex.go", "add_file": "checks_extra/vf_rwmutex.go.src"},
+] + GSFA_FASTPOLL
+
+PROPS["C09"] = {
+    "technique": "generated concurrent programs (rapid) run as stress schedules with progress/consistency oracles + dynamic lock-order monitoring of single-threaded generated operation lists on a build with an instrumented epoch-set mutex",
+    "level_text": "Stress: rapid generates programs of 2..12 reader goroutines (getSlot, getFirstAvailableBlock, getBlock, getBlockTime, getTransaction, getSignaturesForAddress, getVersion, epoch listing, gRPC GetBlock) and 1..3 writer goroutines (AddEpoch/RemoveEpoch/ReplaceEpoch on volatile epochs with shared Epoch objects; or ReplaceOrAddEpoch/RemoveEpochByConfigFilepath with freshly loaded epochs) at GOMAXPROCS 2/4/16; every goroutine must finish (a 12 s stall with goroutines parked in sync.RWMutex is reported as deadlock with their stacks), every epoch list must be duplicate-free, newest first, a superset of the stable epochs, and every query addressed to a stable epoch must equal the idle server's answer. Monitor: the same operations run single-threaded against a build in which MultiEpoch.mu is replaced (AST rewrite) by an instrumented RW mutex that reports a read acquisition by a goroutine already holding the read lock, or a write acquisition under a read lock - the acquisition orders that sync.RWMutex documents as deadlock-prone - independent of the schedule. Exploration level.",
+    "level_note": "Schedules are sampled, not enumerated; the monitor covers the lock acquisitions executed by the generated operations (counted in class lock-acquisitions-observed), not unexecuted call-graph paths. In class B (old epoch closed on replace) readers only issue slot-routed queries to stable epochs and epoch listings.",
+    "rule": ("stress: rapid draws readers x ops, writers x ops, GOMAXPROCS, class A/B; non-trivial = >=2 readers, >=1 writer and an epoch-listing operation that overlapped a running writer (measured); monitor: 1..40 ops per list, non-trivial = >=2 ops; distinct by case hash"),
+    "assumptions": ["a 12 s stall with goroutines parked in RWMutex.RLock/Lock is a deadlock (each operation takes milliseconds)"],
+    "units": [
+        {"name": "lock-monitor", "pkg": ".", "run": "TestVfC09Monitor", "checks": T(400, 20000), "shards": T(4, 16), "timeout": T(900, 3000), "transforms": C09_MONITOR, "env": ROOT_ENV},
+        {"name": "stress", "pkg": ".", "run": "TestVfC09Stress", "checks": T(60, 3000), "shards": T(4, 8), "timeout": T(900, 3000), "transforms": GSFA_FASTPOLL, "env": ROOT_ENV, "shrinktime": "20s"},
+    ],
+}
+
 
 # properties not (yet) claimed by a check; kept current by hand
 NOT_APPLICABLE = [
